@@ -103,7 +103,8 @@ def evaluated(table):
 
 
 CONSUMER_SAMPLES = [(["A", "G", "C"], ("Ok", ["A", "A", "B", "C"])), (["H"], ("Ok", ["A", "B", "C", "A"])), ([], ("Ok", [])), (["A", "zz"], "Err"), (["zz", "A"], "Err"),
-                    (["A", "M"], "Err"), (["L"], "Err"), (["B", "A"], ("Ok", ["B", "A"]))]
+                    (["A", "M"], "Err"), (["L"], "Err"), (["B", "A"], ("Ok", ["B", "A"])),
+                    (["A", "A"], ("Ok", ["A", "A"])), (["G", "B", "C"], ("Ok", ["A", "B", "B", "C"])), (["C", "C", "G"], ("Ok", ["C", "C", "A", "B"]))]
 
 
 def consumer_table(prog, key):
